@@ -1391,3 +1391,307 @@ Section Level.
     - apply level_nonsqr; auto.
   Qed.
 End Level.
+
+(* ------------------------------------------------------------------------------------------ *)
+(** * The public wrappers *)
+Section Wrappers.
+  Variable base : mat -> mat -> mat -> bool -> res mat.
+  Variable dflt : nat.
+  Variable T : kind -> sched.
+  Hypothesis base_ok : base_correct base.
+  Hypothesis T_ok : forall k, check_sched (T k) = true.
+  Hypothesis T_kind : forall k, s_kind (T k) = k.
+
+  Lemma fuel_for_ok A B : Nat.log2 (Nat.max (nr A) (Nat.max (nc A) (nc B))) < fuel_for A B.
+  Proof. unfold fuel_for. apply Nat.lt_succ_r, Nat.log2_le_mono. lia. Qed.
+
+  Definition dest (Copt : option mat) (A B : mat) : mat :=
+    match Copt with Some C => C | None => mzero (nr A) (nc B) end.
+  Definition dest_ok (Copt : option mat) (A B : mat) : Prop :=
+    match Copt with Some C => wf C /\ nr C = nr A /\ nc C = nc B | None => True end.
+
+  Lemma wrapper_head_ok cutoff Copt A B : (0 <= cutoff)%Z -> nc A = nr B -> dest_ok Copt A B ->
+    ub_guard (norm_cutoff dflt (Z.to_nat cutoff)) A B = false ->
+    wrapper_head dflt cutoff Copt A B = Ok (norm_cutoff dflt (Z.to_nat cutoff), dest Copt A B) /\
+    wf (dest Copt A B) /\ nr (dest Copt A B) = nr A /\ nc (dest Copt A B) = nc B.
+  Proof.
+    intros Hc Hd HC Hub. unfold wrapper_head. rewrite Hd, Nat.eqb_refl. cbn [negb].
+    destruct (Z.ltb_spec cutoff 0); [lia|].
+    destruct Copt as [C|]; cbn [dest dest_ok] in *.
+    - destruct HC as (HC & Hr & Hcn). rewrite Hr, Hcn, !Nat.eqb_refl. cbn [andb bind].
+      rewrite Hub. split; [reflexivity|]. split; [exact HC|split; reflexivity].
+    - cbn [bind]. rewrite Hub. split; [reflexivity|]. split; [apply wf_mzero|split; reflexivity].
+  Qed.
+
+  (** C01 for mzd_mul: both the Strassen-Winograd route and (A == B) the squaring route *)
+  Theorem mzd_mul_spec cutoff (same : bool) win Copt A B :
+    let B' := if same then A else B in
+    wf A -> wf B' -> nc A = nr B' -> 0 < nr A -> 0 < nc A -> 0 < nc B' -> (0 <= cutoff)%Z ->
+    dest_ok Copt A B' -> ub_guard (norm_cutoff dflt (Z.to_nat cutoff)) A B' = false ->
+    mzd_mul_model base dflt T cutoff same win Copt A B = Ok (mmul A B').
+  Proof.
+    intros B' HA HB Hd P1 P2 P3 Hc HC Hub. unfold mzd_mul_model. fold B'.
+    destruct (wrapper_head_ok cutoff Copt A B' Hc Hd HC Hub) as (-> & W & R & Cn). cbn [bind].
+    rewrite (strassen_spec base dflt T base_ok T_ok T_kind); auto using fuel_for_ok.
+    - unfold acc_spec. destruct same; reflexivity.
+    - pose proof (norm_cutoff_ge dflt (Z.to_nat cutoff)). lia.
+    - unfold B'. destruct same; [reflexivity|discriminate].
+  Qed.
+
+  (** _mzd_addmul (called by the TRSM routines with their own cutoff) *)
+  Theorem _mzd_addmul_spec cutoff (same : bool) win C A B :
+    let B' := if same then A else B in
+    63 <= cutoff -> wf C -> wf A -> wf B' -> nc A = nr B' -> nr C = nr A -> nc C = nc B' ->
+    0 < nr A -> 0 < nc A -> 0 < nc B' ->
+    _mzd_addmul_model base dflt T cutoff same win C A B = Ok (madd C (mmul A B')).
+  Proof.
+    intros B' Hc HC HA HB Hd Hr Hcn P1 P2 P3. unfold _mzd_addmul_model. fold B'.
+    rewrite (strassen_spec base dflt T base_ok T_ok T_kind); auto using fuel_for_ok.
+    - unfold acc_spec. destruct same; reflexivity.
+    - unfold B'. destruct same; [reflexivity|discriminate].
+  Qed.
+
+  Theorem mzd_addmul_spec cutoff (same : bool) win Copt A B :
+    let B' := if same then A else B in
+    wf A -> wf B' -> nc A = nr B' -> 0 < nr A -> 0 < nc A -> 0 < nc B' -> (0 <= cutoff)%Z ->
+    dest_ok Copt A B' -> ub_guard (norm_cutoff dflt (Z.to_nat cutoff)) A B' = false ->
+    mzd_addmul_model base dflt T cutoff same win Copt A B = Ok (madd (dest Copt A B') (mmul A B')).
+  Proof.
+    intros B' HA HB Hd P1 P2 P3 Hc HC Hub. unfold mzd_addmul_model. fold B'.
+    destruct (wrapper_head_ok cutoff Copt A B' Hc Hd HC Hub) as (-> & W & R & Cn). cbn [bind].
+    destruct (Nat.eqb_spec (nr A) 0); [lia|]. destruct (Nat.eqb_spec (nc A) 0); [lia|].
+    destruct (Nat.eqb_spec (nc B') 0); [lia|]. cbn [orb].
+    pose proof (norm_cutoff_ge dflt (Z.to_nat cutoff)).
+    pose proof (_mzd_addmul_spec (norm_cutoff dflt (Z.to_nat cutoff)) same win (dest Copt A B') A B') as H'.
+    cbv zeta in H'.
+    assert (EB : (if same then A else B') = B') by (unfold B'; destruct same; reflexivity).
+    rewrite EB in H'. apply H'; auto; lia.
+  Qed.
+
+  (** the Die conditions of the wrappers *)
+  Lemma mzd_mul_dies cutoff win Copt A B :
+    nc A <> nr B \/ (cutoff < 0)%Z \/ (exists C, Copt = Some C /\ (nr C <> nr A \/ nc C <> nc B)) ->
+    mzd_mul_model base dflt T cutoff false win Copt A B = Err Die.
+  Proof.
+    intros H. unfold mzd_mul_model, wrapper_head.
+    destruct (Nat.eqb_spec (nc A) (nr B)) as [He|Hne]; cbn [negb bind]; [|reflexivity].
+    destruct (Z.ltb_spec cutoff 0); cbn [bind]; [reflexivity|].
+    destruct H as [H|[H|(C & -> & H)]]; try contradiction; try lia.
+    destruct (Nat.eqb_spec (nr C) (nr A)), (Nat.eqb_spec (nc C) (nc B)); cbn [andb bind]; try reflexivity.
+    destruct H; contradiction.
+  Qed.
+End Wrappers.
+
+(* ------------------------------------------------------------------------------------------ *)
+(** * C16: interleavings of the section tasks of mp.c *)
+Lemma il_filter {T} (p : T -> bool) ls r :
+  interleaving ls r -> interleaving (map (filter p) ls) (filter p r).
+Proof.
+  induction 1 as [ls H|ls1 x l ls2 r H IH].
+  - apply il_nil. apply Forall_forall. intros l Hl. apply in_map_iff in Hl as (l' & <- & Hl').
+    rewrite Forall_forall in H. now rewrite (H l' Hl').
+  - rewrite map_app in *. cbn [map filter] in *. destruct (p x); [|exact IH].
+    apply il_cons. exact IH.
+Qed.
+
+Lemma il_map {T U} (f : T -> U) ls r :
+  interleaving ls r -> interleaving (map (map f) ls) (map f r).
+Proof.
+  induction 1 as [ls H|ls1 x l ls2 r H IH].
+  - apply il_nil. apply Forall_forall. intros l Hl. apply in_map_iff in Hl as (l' & <- & Hl').
+    rewrite Forall_forall in H. now rewrite (H l' Hl').
+  - rewrite map_app in *. cbn [map] in *. apply il_cons. exact IH.
+Qed.
+
+Lemma nth_mid {T} (l1 : list T) a l2 d : nth (length l1) (l1 ++ a :: l2) d = a.
+Proof. rewrite app_nth2 by lia. now rewrite Nat.sub_diag. Qed.
+Lemma nth_mid_other {T} (l1 : list T) a b l2 d m : m <> length l1 ->
+  nth m (l1 ++ a :: l2) d = nth m (l1 ++ b :: l2) d.
+Proof.
+  intros Hm. destruct (Nat.lt_ge_cases m (length l1)).
+  - now rewrite !app_nth1 by assumption.
+  - rewrite !app_nth2 by lia. destruct (m - length l1) eqn:E; [lia|reflexivity].
+Qed.
+
+(** if all task lists but the n-th are empty, the only interleaving is the n-th list *)
+Lemma il_single {T} (ls : list (list T)) r n :
+  interleaving ls r -> (forall m, m <> n -> nth m ls [] = []) -> r = nth n ls [].
+Proof.
+  induction 1 as [ls H|ls1 x l ls2 r H IH]; intros Hn.
+  - rewrite Forall_forall in H. destruct (Nat.lt_ge_cases n (length ls)).
+    + symmetry. apply H. now apply nth_In.
+    + now rewrite nth_overflow.
+  - assert (n = length ls1).
+    { destruct (Nat.eq_dec n (length ls1)); [assumption|].
+      specialize (Hn (length ls1) ltac:(congruence)). rewrite nth_mid in Hn. discriminate. }
+    subst n. rewrite nth_mid. f_equal. rewrite IH.
+    + now rewrite nth_mid.
+    + intros m Hm. rewrite (nth_mid_other ls1 l (x :: l)) by assumption. now apply Hn.
+Qed.
+
+Lemma il_in {T} (ls : list (list T)) r x : interleaving ls r -> In x r -> exists l, In l ls /\ In x l.
+Proof.
+  induction 1 as [ls H|ls1 y l ls2 r H IH]; intros Hx; [contradiction|].
+  destruct Hx as [->|Hx].
+  - exists (x :: l). split; [apply in_or_app; right; left; reflexivity|left; reflexivity].
+  - destruct (IH Hx) as (l' & Hl' & Hxl'). apply in_app_or in Hl' as [Hl'|[<-|Hl']].
+    + exists l'. split; [apply in_or_app; auto|assumption].
+    + exists (y :: l). split; [apply in_or_app; right; left; reflexivity|right; assumption].
+    + exists l'. split; [apply in_or_app; right; right; assumption|assumption].
+Qed.
+
+(** semantic section tasks: C_ij (+)= A_il * B_lj on the 2x2 grid with cut points ar, ac, bc *)
+Record mop := mkop { o_i : nat; o_j : nat; o_l : nat; o_acc : bool }.
+
+Section MPsem.
+  Variables A B : mat.
+  Variables ar ac bc : nat.
+  Hypothesis wfA : wf A.
+  Hypothesis wfB : wf B.
+  Hypothesis HA : 2 * ar <= nr A /\ 2 * ac <= nc A.
+  Hypothesis HB : 2 * ac <= nr B /\ 2 * bc <= nc B.
+
+  Definition ablk i l := msub A (i * ar) (l * ac) ar ac.
+  Definition bblk l j := msub B (l * ac) (j * bc) ac bc.
+  Definition cblk (C : mat) i j := msub C (i * ar) (j * bc) ar bc.
+  Definition prod_of o := mmul (ablk (o_i o) (o_l o)) (bblk (o_l o) (o_j o)).
+  Definition loc_step (Q : mat) (o : mop) : mat := if o_acc o then madd Q (prod_of o) else prod_of o.
+  Definition sem_step (C : mat) (o : mop) : mat :=
+    mpaste C (o_i o * ar) (o_j o * bc) (loc_step (cblk C (o_i o) (o_j o)) o).
+  Definition okop o := o_i o < 2 /\ o_j o < 2 /\ o_l o < 2.
+  Definition okC (C : mat) := wf C /\ 2 * ar <= nr C /\ 2 * bc <= nc C.
+  Definition here (i j : nat) (o : mop) : bool := (o_i o =? i) && (o_j o =? j).
+
+  Lemma wf_prod o : okop o -> wf (prod_of o) /\ nr (prod_of o) = ar /\ nc (prod_of o) = bc.
+  Proof.
+    intros (Hi & Hj & Hl). split; [|split; reflexivity]. apply wf_mmul; apply wf_msub; rewrite wf_len by assumption.
+    - destruct (o_i o) as [|[|]]; lia.
+    - destruct (o_l o) as [|[|]]; lia.
+  Qed.
+
+  Lemma wf_loc Q o : okop o -> wf Q -> nr Q = ar -> nc Q = bc ->
+    wf (loc_step Q o) /\ nr (loc_step Q o) = ar /\ nc (loc_step Q o) = bc.
+  Proof.
+    intros Ho HQ Hr Hc. destruct (wf_prod o Ho) as (W & R & Cn). unfold loc_step. destruct (o_acc o).
+    - split; [apply wf_madd; auto; lia|]. cbn [nr nc madd]. auto.
+    - auto.
+  Qed.
+
+  Lemma wf_cblk C i j : okC C -> i < 2 -> j < 2 -> wf (cblk C i j).
+  Proof.
+    intros (W & R & Cn) Hi Hj. apply wf_msub. rewrite wf_len by assumption. destruct i as [|[|]]; lia.
+  Qed.
+
+  Lemma sem_step_ok C o : okop o -> okC C ->
+    okC (sem_step C o) /\ nr (sem_step C o) = nr C /\ nc (sem_step C o) = nc C /\
+    (forall i j, i < 2 -> j < 2 ->
+       cblk (sem_step C o) i j = if here i j o then loc_step (cblk C i j) o else cblk C i j) /\
+    (forall a b, ~ (a < 2 * ar /\ b < 2 * bc) -> get (sem_step C o) a b = get C a b).
+  Proof.
+    intros Ho HC. pose proof Ho as (Hi & Hj & Hl). pose proof HC as (W & R & Cn).
+    destruct (wf_loc (cblk C (o_i o) (o_j o)) o Ho (wf_cblk C _ _ HC Hi Hj) eq_refl eq_refl) as (WL & RL & CL).
+    assert (Hrow : o_i o * ar + nr (loc_step (cblk C (o_i o) (o_j o)) o) <= length (rows C)).
+    { rewrite RL, wf_len by assumption. destruct (o_i o) as [|[|]]; lia. }
+    unfold sem_step. split; [|split; [reflexivity|split; [reflexivity|split]]].
+    - split; [|cbn [nr nc mpaste map_rows]; lia]. apply wf_mpaste; auto.
+      rewrite CL. destruct (o_j o) as [|[|]]; lia.
+    - intros i j Hi' Hj'. unfold here, cblk at 1.
+      destruct (Nat.eqb_spec (o_i o) i) as [<-|Hne]; [destruct (Nat.eqb_spec (o_j o) j) as [<-|Hne]|]; cbn [andb].
+      + rewrite <- RL at 3. rewrite <- CL at 3. apply msub_mpaste; auto.
+      + apply msub_mpaste_other; auto.
+        * rewrite wf_len by assumption. destruct (o_i o) as [|[|]]; lia.
+        * rewrite RL, CL. destruct (o_j o) as [|[|]], j as [|[|]]; lia.
+      + apply msub_mpaste_other; auto.
+        * rewrite wf_len by assumption. destruct i as [|[|]]; lia.
+        * rewrite RL, CL. destruct (o_i o) as [|[|]], i as [|[|]]; lia.
+    - intros a b Hab. apply mpaste_outside; auto. rewrite RL, CL.
+      destruct (o_i o) as [|[|]], (o_j o) as [|[|]]; lia.
+  Qed.
+
+  Definition sem_run (l : list mop) (C : mat) : mat := fold_left sem_step l C.
+
+  Lemma sem_run_proj l : forall C, Forall okop l -> okC C ->
+    okC (sem_run l C) /\ nr (sem_run l C) = nr C /\ nc (sem_run l C) = nc C /\
+    (forall i j, i < 2 -> j < 2 ->
+       cblk (sem_run l C) i j = fold_left loc_step (filter (here i j) l) (cblk C i j)) /\
+    (forall a b, ~ (a < 2 * ar /\ b < 2 * bc) -> get (sem_run l C) a b = get C a b).
+  Proof.
+    induction l as [|o l IH]; intros C Hl HC; cbn [sem_run fold_left filter].
+    - repeat split; auto; apply HC.
+    - inversion Hl as [|? ? Ho Hl']; subst.
+      destruct (sem_step_ok C o Ho HC) as (HC1 & R1 & C1 & B1 & O1).
+      destruct (IH (sem_step C o) Hl' HC1) as (HC2 & R2 & C2 & B2 & O2).
+      fold (sem_run l (sem_step C o)).
+      split; [exact HC2|]. split; [congruence|]. split; [congruence|]. split.
+      + intros i j Hi Hj. rewrite B2, B1 by assumption. destruct (here i j o); reflexivity.
+      + intros a b Hab. rewrite O2, O1 by assumption. reflexivity.
+  Qed.
+
+  (** C16 (sections_commute): the sections write disjoint quadrants, hence every interleaving of the
+      task lists leaves in each quadrant what that quadrant's own section computes, and nothing else
+      is touched *)
+  Theorem sections_commute (secs : list (list mop)) (order : list mop) (C : mat) :
+    interleaving secs order -> okC C ->
+    Forall (Forall okop) secs ->
+    forall n i j, i < 2 -> j < 2 ->
+      (forall o, In o (nth n secs []) -> here i j o = true) ->
+      (forall m, m <> n -> forall o, In o (nth m secs []) -> here i j o = false) ->
+      cblk (sem_run order C) i j = fold_left loc_step (nth n secs []) (cblk C i j).
+  Proof.
+    intros Hil HC Hok n i j Hi Hj Hn Hoth.
+    assert (Hall : Forall okop order).
+    { apply Forall_forall. intros o Ho. destruct (il_in _ _ _ Hil Ho) as (l & Hl & Hol).
+      rewrite Forall_forall in Hok. specialize (Hok l Hl). rewrite Forall_forall in Hok. auto. }
+    destruct (sem_run_proj order C Hall HC) as (_ & _ & _ & Hb & _).
+    rewrite Hb by assumption. f_equal.
+    pose proof (il_filter (here i j) _ _ Hil) as Hf.
+    assert (Hnth : forall m, nth m (map (filter (here i j)) secs) [] = filter (here i j) (nth m secs [])).
+    { intros m. change (@nil mop) with (filter (here i j) []) at 1. apply map_nth. }
+    rewrite (il_single _ _ n Hf).
+    - rewrite Hnth. clear Hoth. induction (nth n secs []) as [|o l IHl]; [reflexivity|]. cbn [filter].
+      rewrite (Hn o (or_introl eq_refl)). f_equal. apply IHl. intros o' Ho'. apply Hn. now right.
+    - intros m Hm. rewrite Hnth. specialize (Hoth m Hm).
+      induction (nth m secs []) as [|o l IHl]; [reflexivity|]. cbn [filter].
+      rewrite (Hoth o (or_introl eq_refl)). apply IHl. intros o' Ho'. apply Hoth. now right.
+  Qed.
+End MPsem.
+
+(** ** mp.c: what is proven about the concrete model [mp4], and what is not.
+
+    FULL STATEMENT (not proven as a whole):
+      forall order, interleaving (mp_sections (MP acc)) order ->  63 <= c -> (wf, dimensions, positivity) ->
+        mp4 base dflt T MP order acc c C A B = Ok (if acc then madd C (mmul A B) else mmul A B).
+    Proven: (1) [check_mp] of the generated task lists (StrassenGen.v: sched_mp_*_ok): every section
+    is two products C_ij (+)= A_i0*B_0j, A_i1*B_1j into ONE quadrant, the four sections own four
+    different quadrants; (2) [sections_commute]: for tasks of that shape every interleaving leaves in
+    each quadrant exactly what its own section computes; (3) [three_strips]/[result_ext] for the
+    remainder strips; (4) below, the base-case branch of [mp4] for every order.  Missing: the
+    simulation lemma "run_body over the mp window table = sem_run" that glues (1)-(3) to [mp4]. *)
+Section MPbase.
+  Variable base : mat -> mat -> mat -> bool -> res mat.
+  Variable dflt : nat.
+  Variable T : kind -> sched.
+  Variable MP : bool -> mpsched.
+  Hypothesis base_ok : base_correct base.
+
+  Theorem mp4_base_partial acc order c C A B : check_mp (MP acc) = true -> mp_acc (MP acc) = acc ->
+    wf C -> wf A -> wf B -> nc A = nr B -> nr C = nr A -> nc C = nc B ->
+    0 < nr A -> 0 < nc A -> 0 < nc B ->
+    closer (nr A) c || (closer (nc A) c || (closer (nc B) c || false)) = true ->
+    mp4 base dflt T MP order acc c C A B = Ok (if acc then madd C (mmul A B) else mmul A B).
+  Proof.
+    intros Hck Hacc HC HA HB D1 D2 D3 P1 P2 P3 Hcl.
+    unfold check_mp in Hck. rewrite Hacc in Hck. rewrite !andb_true_iff in Hck.
+    destruct Hck as [[[[[[[[K1 K2] K3] K4] K5] K6] K7] K8] K9].
+    apply deq_true in K1, K2, K3, K4.
+    unfold mp4. rewrite K1, K2, K3.
+    replace (is_base _ _ canon_closer canon_mp_args) with true.
+    unfold mp_base_case. rewrite base_ok; auto using wf_mzero; try (cbn [nr nc mzero]; lia).
+    cbn [bind]. rewrite D2, D3.
+    replace (madd (mzero (nr A) (nc B)) (mmul A B)) with (mmul A B)
+      by (symmetry; apply (madd_zero_l (mmul A B)); auto using wf_mmul).
+    destruct acc.
+    - unfold add_to, same_dims. cbn [nr nc mmul]. rewrite D2, D3, !Nat.eqb_refl. reflexivity.
+    - apply copy_to_ok; auto using wf_mmul.
+  Qed.
+End MPbase.
